@@ -86,7 +86,7 @@ class MachineryFailure(Exception):
 def generate(module, cfg_text, extra_modules=None, timeout=1800, simulate=None, depth=None, seed=None, workers=None):
     """Run the model; every JSON object printed at a final state is one behaviour {script, obs}."""
     res = tlc.run(module, cfg_text, extra_modules=extra_modules, timeout=timeout, simulate=simulate, depth=depth, seed=seed,
-                  workers=workers, heap='6g' if workers is None else '3g')
+                  workers=workers, heap='6g' if workers is None else '3g', coverage=not simulate)
     if res.violated:
         return res, None
     behaviours = [l for l in res.lines if isinstance(l, dict)]
@@ -186,6 +186,7 @@ class Run(object):
         self.exhaustive = False
         self.rule = ''
         self.tlc_runs = []
+        self.actions = {}
         import glob
         for old_replay in glob.glob(os.path.join(OUT, 'replays', '%s-*.json' % prop)):
             try:
@@ -198,8 +199,12 @@ class Run(object):
     def add_tlc(self, label, res):
         self.states += res.distinct
         self.transitions += res.states
-        self.tlc_runs.append({"run": label, "states_generated": res.states, "distinct": res.distinct,
-                              "depth": res.depth, "wall_s": round(res.wall, 1)})
+        entry = {"run": label, "states_generated": res.states, "distinct": res.distinct, "depth": res.depth, "wall_s": round(res.wall, 1)}
+        if res.coverage:
+            entry["action_coverage"] = dict(res.coverage)       # TLC -coverage 1: how often each action of the spec was taken
+            for a, n in res.coverage.items():
+                self.actions[a] = self.actions.get(a, 0) + n
+        self.tlc_runs.append(entry)
 
     def note(self, msg):
         self.notes.append(msg)
